@@ -122,8 +122,9 @@ class RecLabelSource(LabelScheduleSource):
     async def get_schedules(self) -> List[ScheduledTask]:
         k = self.n
         self.n += 1
+        t0 = self.now_us()
         res = await super().get_schedules()
-        self.polls.append({"t": self.now_us(), "k": k, "failed": False, "listed": [s.args[0] for s in res if s.args]})
+        self.polls.append({"t": t0, "k": k, "failed": False, "listed": [s.args[0] for s in res if s.args], "ret": self.now_us()})
         return res
 
 
@@ -159,7 +160,13 @@ def run_sched(case: Dict[str, Any]) -> Dict[str, Any]:
             sched_label = []
             for e in label_entries:
                 if "cron" in e:
-                    sched_label.append({"cron": e["cron"], "args": [e["id"]]})
+                    ent = {"cron": e["cron"], "args": [e["id"]]}
+                    off = e.get("offset")
+                    if off:      # entries of one task may mix offsets: none, a timedelta, a zone name
+                        ent["cron_offset"] = dtm.timedelta(microseconds=off["td_us"]) if "td_us" in off else off["zone"]
+                    elif e.get("empty_offset") is not None:
+                        ent["cron_offset"] = e["empty_offset"]       # "" / timedelta(0): the same as no offset
+                    sched_label.append(ent)
                 else:
                     T = clock.from_us(base_us + e["t_off_us"])
                     if e.get("naive"):
